@@ -102,11 +102,18 @@ class ThreadRun:
         run = self
 
         def tpc_finish(inst, transaction, func=lambda tid: None):
+            me0 = run.sched.me() if run.sched else None
+
             def f(tid):
                 me = run.sched.me() if run.sched else None
                 run.undo_tid[me.name if me else None] = tid
                 func(tid)
-            return orig(inst, transaction, f)
+            if me0 is not None:
+                run.log(me0.name, 'finish-enter')
+            r = orig(inst, transaction, f)
+            if me0 is not None:
+                run.log(me0.name, 'finish-exit', run.undo_tid.get(me0.name))
+            return r
         U.tpc_finish = tpc_finish
 
     def close(self):
@@ -175,10 +182,12 @@ class ThreadRun:
             last_tid = [None]
 
             def tpc_finish(*a, **kw):
+                self.log(th, 'finish-enter')
                 last_tid[0] = orig_finish(*a, **kw)
+                self.log(th, 'finish-exit', last_tid[0])
                 return last_tid[0]
             inst.tpc_finish = tpc_finish
-            self.log(th, 'boundary')
+            self.log(th, 'boundary', getattr(conn._storage, '_start', None))
             wrote = {}
             try:
                 for op in prog:
@@ -216,12 +225,12 @@ class ThreadRun:
                             self.log(th, 'boundary-start')
                             tm.begin()
                             wrote = {}
-                            self.log(th, 'boundary')
+                            self.log(th, 'boundary', getattr(conn._storage, '_start', None))
                         elif k == 'abort':
                             self.log(th, 'boundary-start')
                             tm.abort()
                             wrote = {}
-                            self.log(th, 'boundary')
+                            self.log(th, 'boundary', getattr(conn._storage, '_start', None))
                         elif k == 'commit':
                             self.log(th, 'commit-start', dict(wrote))
                             last_tid[0] = None
@@ -230,7 +239,7 @@ class ThreadRun:
                             from vlib import clock
                             clock.CLOCK.advance(0.01)
                             wrote = {}
-                            self.log(th, 'boundary')
+                            self.log(th, 'boundary', getattr(conn._storage, '_start', None))
                         elif k == 'undo':
                             # undo one of the write transactions committed during this run
                             import base64
@@ -253,7 +262,7 @@ class ThreadRun:
                                     from vlib import clock
                                     clock.CLOCK.advance(0.01)
                                 wrote = {}
-                                self.log(th, 'boundary')
+                                self.log(th, 'boundary', getattr(conn._storage, '_start', None))
                         elif k == 'new_oid':
                             oid = self.db.storage.new_oid()
                             self.issued.append((th, oid))
@@ -271,7 +280,7 @@ class ThreadRun:
                         self.log(th, 'boundary-start')
                         tm.abort()
                         wrote = {}
-                        self.log(th, 'boundary')
+                        self.log(th, 'boundary', getattr(conn._storage, '_start', None))
             finally:
                 try:
                     tm.abort()
@@ -400,6 +409,22 @@ def snapshot_oracle(run, out, prop):
             last_start[th] = tick
         elif kind == 'boundary':
             starts[(th, tick)] = last_start.get(th, tick)
+    # no transaction becomes visible below a snapshot bound that a connection already holds: the storage-level finish
+    # of the commit was entered after the bound had been observed, yet its id is smaller than the bound
+    bounds = [(tick, th, data) for tick, th, kind, data in run.events if kind == 'boundary' and data]
+    bounds += [(tick, th, data[3]) for tick, th, kind, data in run.events if kind == 'read' and data[3]]
+    enter = {}
+    for tick, th, kind, data in run.events:
+        if kind == 'finish-enter':
+            enter[th] = tick
+        elif kind == 'finish-exit' and data and th in enter:
+            for tb, thb, bound in bounds:
+                if tb < enter[th] and data < bound:
+                    out.fail((prop, 'threads-snapshot', 'commit-visible-below-established-bound'),
+                             'thread %s finished a commit with id %r after thread %s held the snapshot bound %r (everything '
+                             'below a bound is what that snapshot shows: the commit appeared in it retroactively)' % (
+                                 th, data, thb, bound))
+                    return 0
     n = 0
     for th, ss in segs.items():
         for seg in ss:
